@@ -526,8 +526,10 @@ func checkC11(c *Ctx) {
 	c.Clause("RemoveBackend removes every backend of the name (or AddBackend rejects duplicates)")
 	c.Clause("admin handlers answer the success status only on the nil-error edge of the balancer call")
 	c.Clause("a Backend's identity and forwarding machinery (Name, URL, ReverseProxy, Weight) are never stored after the backend was published: a request that picked it just before a removal is still served through it")
+	c.Clause("the balancer and strategy locks are never re-acquired while held (a recursive read lock deadlocks as soon as an admin write queues between the two acquisitions) and are acquired in a consistent order")
 	c.NotDecided("linearizability of concurrent histories beyond mutual exclusion; that in-flight requests complete")
 
+	lockOrder(c, "LoadBalancer.mutex", "Strategy.mutex", "Strategy.mu")
 	lockDiscipline(c, func(k string) bool {
 		return k == "loadbalancer.LoadBalancer.strategy" || strings.HasSuffix(k, "Strategy.backends") || k == "loadbalancer.weightedBackend.currentWeight" ||
 			k == "loadbalancer.Backend.Name" || k == "loadbalancer.Backend.URL" || k == "loadbalancer.Backend.ReverseProxy" || k == "loadbalancer.Backend.Weight"
